@@ -206,10 +206,82 @@ def oracle_idle(case, lines, insts):
     return []
 
 
+def blocking_rx_run(rng):
+    """rxfn blocks (virtual time passes inside the read) and returns a Consecutive Frame that arrives [gap] after the previous frame:
+    the deadline is judged when the frame is handed over, not when the read started.  Same run on the model as [tick gap; proc]."""
+    import isotp
+    from vclock import VClock
+    a, _ = rand_inst_pair(rng)
+    Tms = rng.choice(TIMEOUTS)
+    T = ms_to_ns(Tms)
+    p = {'rx_consecutive_frame_timeout': Tms, 'blocksize': rng.choice([0, 2]), 'stmin': 0}
+    inst = dict(a, params=p)
+    rid, ext, pfx = reach(inst)
+    d = rng.choice(deltas(T))
+    late = rng.random() < 0.5
+    gap = T + d if late else max(0, T - d)
+    pay = bytes(rng.getrandbits(8) for _ in range(10))
+    ff = pfx + bytes([0x10, 10]) + pay[:6 - len(pfx)]
+    cfs = []
+    off, sn = 6 - len(pfx), 1
+    while off < 10:
+        cfs.append(pfx + bytes([0x20 | sn]) + pay[off:off + 7 - len(pfx)])
+        off += 7 - len(pfx); sn += 1
+    which = rng.randrange(len(cfs))          # the frame that comes late (or just in time)
+    clock = VClock(10**9)
+    script = []
+    errs, sent = [], []
+
+    def rxfn(timeout):
+        if not script:
+            return None
+        delay, data = script.pop(0)
+        clock.tick(delay)              # the read blocks until the frame is there
+        return isotp.CanMessage(arbitration_id=rid, data=data, extended_id=bool(ext))
+    clock.install()
+    try:
+        layer = isotp.TransportLayerLogic(rxfn=rxfn, txfn=sent.append, address=make_layer_address(inst), error_handler=lambda e: errs.append(type(e).__name__), params=dict(p))
+        ops = [[0, 'rx', rid, int(ext), hx(ff)], [0, 'proc', 1, 1]]
+        script.append((0, ff)); layer.process()
+        for i, cf in enumerate(cfs):
+            g = gap if i == which else 0
+            script.append((g, cf)); layer.process(rx_timeout=1.0)
+            ops += [[0, 'tick', g], [0, 'rx', rid, int(ext), hx(cf)], [0, 'proc', 1, 1]]
+        got = layer.recv()
+    finally:
+        clock.uninstall()
+    return {'insts': [inst], 'ops': ops + [[0, 'recv']], 'late': late, 'gap_ns': gap, 'T_ms': Tms, 'errors': errs, 'delivered': None if got is None else hx(got), 'payload': hx(pay)}
+
+
 def run_shard(campaign, shard, nshards, seed, tier):
     part = Part()
     rng = random.Random('%s/%s/%s' % (seed, campaign, shard))
     quick = tier != 'thorough'
+    if campaign == 'blocking_rx':
+        for _ in range((300 if quick else 10000) // nshards + 1):
+            res = blocking_rx_run(rng)
+            part.d['evaluations'] += 1
+            part.distinct({k: res[k] for k in ('insts', 'gap_ns', 'late')})
+            part.hist('side_of_deadline', 'blocking-read/' + ('after' if res['late'] else 'before'))
+            nto = res['errors'].count('ConsecutiveFrameTimeoutError')
+            case = {'insts': res['insts'], 'ops': res['ops']}
+            if res['late'] and (nto != 1 or res['delivered'] is not None):
+                part.violation('oracle', campaign, 'C07:missed-consecutive-frame-timeout', 'a Consecutive Frame handed over by a blocking read %d ns after the previous frame (T=%d ms): %d timeout errors, delivered=%s, errors %s' % (
+                    res['gap_ns'], res['T_ms'], nto, res['delivered'], res['errors'][:4]), case, {'blocking_read': True})
+                continue
+            if not res['late'] and (nto or res['delivered'] != res['payload']):
+                part.violation('oracle', campaign, 'C07:timeout-before-deadline', 'gap %d ns <= T=%d ms inside a blocking read: errors %s delivered=%s' % (
+                    res['gap_ns'], res['T_ms'], res['errors'][:4], res['delivered']), case, {'blocking_read': True})
+                continue
+            # the model sees the same history as [tick gap; frame; process()]
+            ml = lc.model().run_case(case)
+            part.d['traces_validated'] += 1
+            merrs = [e[4:] for l in ml for e in split_line(l)[0] if e.startswith('err:')]
+            mdel = [e[5:] for l in ml for e in split_line(l)[0] if e.startswith('recv:') and e != 'recv:none']
+            if merrs != res['errors'] or (mdel[0] if mdel else None) != res['delivered']:
+                part.violation('correspondence', campaign, 'corr:blocking_rx', 'model (tick; process) and implementation (blocking read) differ: errors %s vs %s, delivered %s vs %s' % (
+                    merrs, res['errors'], mdel, res['delivered']), case, {'theorem_or_correspondence': THEOREMS, 'blocking_read': True})
+        return part.result()
     gens = {'rx': (gen_rx_case, oracle_rx, 600, 30000), 'tx': (gen_tx_case, oracle_tx, 600, 30000), 'idle': (gen_idle_case, oracle_idle, 400, 12000)}
     g, o, nq, nt = gens[campaign]
     for _ in range((nq if quick else nt) // nshards + 1):
@@ -228,7 +300,7 @@ def run_shard(campaign, shard, nshards, seed, tier):
 
 
 def run(ctx):
-    for c in ('rx', 'tx', 'idle'):
+    for c in ('rx', 'tx', 'idle', 'blocking_rx'):
         run_sharded(ctx, 'C07', c)
     res = coqtables.check_to_ns_table(ctx)
     ctx.exhaustive['ms -> ns timer conversion, all integers 0..20000 ms (Coq PrimFloat vs harness expression)'] = res
